@@ -231,6 +231,13 @@ def check_c06(prop, tier, seed):
                          if e['ev'] in ('rename', 'unlink') or (e['ev'] == 'open' and e['mode'] != 'ro')]
                 for n in proto[:6] + rnd.sample(proto, min(8, len(proto))):
                     ks.update({n, n + 1})
+                if ci == 0:
+                    # two dense windows: EVERY system call of one incremental update in the exploration phase and of
+                    # one in the sampling phase (checkpoints are delimited by the renames)
+                    ren = [e['n'] for e in events if e['ev'] == 'rename']
+                    for w in (3, len(ren) - 3):
+                        if 1 <= w < len(ren):
+                            ks.update(range(ren[w - 1] + 1, ren[w] + 2))
                 ks = sorted(k for k in ks if 1 <= k <= n_sys)
             suspicious = sorted(set(n for _, _, n in fails))
             for n in suspicious[:40]:
